@@ -1454,3 +1454,7 @@ def r12(cx):
                          'target without testing that it has not terminated yet: SIGCONT puts an exited child back to Running and SIGTERM / '
                          'SIGKILL replace its exit status, so `wait` reports 143 (or never returns) in the simulator where a real kernel '
                          'ignores signals sent to a zombie and reports the true exit status', loc=body.loc(t))
+
+
+# --- explanation addendum (generated catalogue in DESIGN.md reads RS.explanation)
+RS.explanation += ' Added later (sibling and kernel-semantics rules): is_executable_file requires a regular file on both sides (R8); the simulated fork inherits what fork(2) inherits (R9); the simulated pipe() allocates nothing when it fails (R10); wait(-1) tells live children from awaited ones (R11); signals do not affect terminated processes (R12); open(O_CREAT) must not create directories (R6c, open finding).'
